@@ -7,6 +7,10 @@
 #include "DensityGrid.hpp"
 #include "Photon.hpp"
 #include "c16_march.hpp"
+#include <atomic>
+#include <chrono>
+#include <omp.h>
+#include <thread>
 
 namespace c16 {
 
@@ -20,6 +24,51 @@ namespace c16 {
 #define TRAP_END                                                                                                      \
   c16_jmp = nullptr;                                                                                                  \
   }
+
+// progress markers: every call into the code under test is bracketed by two
+// increments (odd = inside the call) so that a call that never returns is
+// reported by the watchdog instead of hanging the check
+static std::atomic< uint64_t > g_beat[256];
+static char g_current[256][1024];
+
+class Watchdog {
+  std::atomic< bool > _finished;
+  std::thread _thread;
+
+public:
+  Watchdog(verif::Result &R, const verif::Args &A, const std::string &prefix, int seconds = 20) : _finished(false) {
+    _thread = std::thread([&R, &A, prefix, seconds, this]() {
+      uint64_t last[256] = {0};
+      int stale[256] = {0};
+      while (!_finished) {
+        std::this_thread::sleep_for(std::chrono::seconds(1));
+        for (int t = 0; t < 256; ++t) {
+          const uint64_t b = g_beat[t];
+          if (b == last[t] && (b & 1))
+            ++stale[t];
+          else
+            stale[t] = 0;
+          last[t] = b;
+          if (stale[t] > seconds) {
+            R.violation(prefix + ":interact-does-not-return", verif::fmt("the call has not returned for %d s: ", seconds) + g_current[t], g_current[t]);
+            R.cap("run ended by the watchdog");
+            if (R.evaluations < 2)
+              R.evaluations = 2;
+            R.nontrivial = std::max< uint64_t >(R.nontrivial, 2);
+            R.finish(A);
+            _exit(0);
+          }
+        }
+      }
+    });
+  }
+  void stop() {
+    _finished = true;
+    if (_thread.joinable())
+      _thread.join();
+  }
+  ~Watchdog() { stop(); }
+};
 
 struct RayStats {
   uint64_t rays = 0, rays_wrap = 0, rays_abs = 0, rays_esc = 0, ties = 0, iod = 0;
@@ -116,7 +165,11 @@ static bool run_ray(const RayCtx &cx, GridT &grid, const RayCase &rc, verif::Res
     volatile bool ok = false;
     {
       TRAP_BEGIN(PFX + ":abort:integrate_optical_depth" + kk, "abort in integrate_optical_depth: " + rep, rep)
+      const int tid = omp_get_thread_num() & 255;
+      snprintf(g_current[tid], sizeof(g_current[tid]), "%s", rep.c_str());
+      ++g_beat[tid];
       tau = grid.integrate_optical_depth(ph);
+      ++g_beat[tid];
       ok = true;
       TRAP_END
     }
@@ -136,10 +189,14 @@ static bool run_ray(const RayCtx &cx, GridT &grid, const RayCase &rc, verif::Res
   volatile bool done = false;
   {
     TRAP_BEGIN(PFX + ":crash:interact" + kk, "interact ends in cmac_error/abort or a memory fault: " + rep, rep)
+    const int tid = omp_get_thread_num() & 255;
+    snprintf(g_current[tid], sizeof(g_current[tid]), "%s", rep.c_str());
+    ++g_beat[tid];
     try {
       DensityGrid::iterator it = grid.interact(ph, rc.target);
       ret = it.get_index();
       done = true;
+      ++g_beat[tid];
     } catch (const std::exception &e) {
       c16_jmp = nullptr;
       R.violation(PFX + ":crash:interact" + kk, std::string("interact throws ") + e.what() + ": " + rep, rep);
